@@ -167,8 +167,134 @@ def default_first_stage(ctx, rng, binp):
             report_violation(ctx, "config:default-not-first", {"case": q, "expected_by_spec": {"default": d, "first locale": d}, "implementation": r})
 
 
+HDR = "[package.metadata.leptos-i18n]"
+# blanks `str::trim_start` removes (Unicode White_Space) and look-alikes it keeps (zero-width space, BOM)
+BLANKS = [" ", "  ", "\t", " \t ", "\u00a0", "\u3000", "\u2003 ", "\x0b", "\x0c", "\u2028", "\u0085", "\r"]
+NOT_BLANKS = ["\u200b", "\ufeff", "#", "x", "\"", "[", "."]
+SECTION_LINES = [HDR, HDR + " # c", HDR + "x", HDR + HDR, HDR + "]", HDR[:-1], HDR[:-1] + ".extra]", "[" + HDR + "]", HDR.upper(), HDR.replace("-", "_"),
+                 "# " + HDR, "note = \"" + HDR + "\"", "x " + HDR, "default = \"en\"", "locales = [\"en\"]", "", "[package]", "[dependencies]",
+                 "a = 1  # see " + HDR]
+EOLS = ["\n", "\n", "\n", "\r\n", "\r", ""]
+
+
+def gen_manifest_text(rng):
+    out = []
+    for _ in range(rng.range(0, 7)):
+        line = rng.pick(SECTION_LINES)
+        r = rng.below(10)
+        if r < 3:
+            line = rng.pick(BLANKS) + line
+        elif r < 4:
+            line = rng.pick(NOT_BLANKS) + line
+        elif r < 5:
+            line = rng.pick(BLANKS) + rng.pick(BLANKS) + line
+        out.append(line + rng.pick(EOLS))
+    return "".join(out)
+
+
+RUST_WS = set("\t\n\x0b\x0c\r \x85\xa0\u1680\u2028\u2029\u202f\u205f\u3000") | {chr(c) for c in range(0x2000, 0x200b)}
+
+
+def spec_split(text):
+    """the statement: the section starts at the first line (lines end at a line feed) whose first non-blank text is the header"""
+    pos = 0
+    for line in text.split("\n"):
+        i = 0
+        while i < len(line) and line[i] in RUST_WS:
+            i += 1
+        if line.startswith(HDR, i):
+            return text[:pos + i], text[pos + i + len(HDR):]
+        pos += len(line) + 1
+    return None
+
+
+def section_stage(ctx, rng, binp):
+    """the textual step before TOML decoding: `split_at_config_section` (extracted from /repo's source at build time) vs the Lean model
+    `Manifest.splitAtSection` vs the statement; then `ConfigFile::new` end to end: mentions of the header around the section change nothing,
+    and the line reported for a syntax error inside the section is the line of Cargo.toml (model: `Manifest.whitespaced`)"""
+    texts = ["", HDR, " " + HDR, "# " + HDR + "\n" + HDR + "\n", "\u200b" + HDR, "\u2028" + HDR + "\n", "a\r" + HDR + "\n", "\n\n \t" + HDR + "x\n" + HDR,
+             "x = \"" + HDR + "\"\n"]
+    texts += [gen_manifest_text(rng) for _ in range(ctx.budget(3000, 60000))]
+    impl = run_lines_resilient(binp, [{"op": "manifest_split", "text": t} for t in texts])
+    model = lean_driver([{"op": "manifest.split", "text": t} for t in texts])
+    if impl and "unavailable" in impl[0]:
+        note_model_mismatch(ctx, "P/manifest.split", "cfg_file.rs", impl[0]["unavailable"] + ": the model of the section split is no longer tied to the code")
+    else:
+        for t, r, m in zip(texts, impl, model):
+            sp = spec_split(t)
+            ctx.seen({"manifest_text": t}, nontrivial=sp is not None and (HDR in sp[0] or HDR in sp[1] or sp[0].strip() != ""))
+            ctx.count("section:" + ("found" if sp else "absent"))
+            if "panic" in r or "crash" in r:
+                report_violation(ctx, "config:section-split-panics", {"manifest": t, "implementation": r})
+                continue
+            ri = None if r.get("absent") else (r["before"], r["after"])
+            mi = None if m.get("absent") else (m["before"], m["after"])
+            if ri != mi:
+                note_model_mismatch(ctx, "P/manifest.split", {"manifest": t}, {"impl": ri, "model": mi})
+            if mi != sp:
+                raise HarnessError("Lean model of the section split and its python statement disagree on " + json.dumps(t))
+            if mi is not None and m["whitespaced"] != "\n" * mi[0].count("\n") + mi[1]:
+                raise HarnessError("Lean `whitespaced` differs from its statement on " + json.dumps(t))
+    # ---- end to end: `ConfigFile::new`
+    reqs, metas = [], []
+    mention_lines = ["# " + HDR, "   # the section is " + HDR, "note = \"" + HDR + "\"", "note = '" + HDR + "'  # " + HDR, "\t# " + HDR + HDR,
+                     "keywords = [\"" + HDR + "\"]", "", "# plain comment", "x = 1"]
+    for _ in range(ctx.budget(400, 6000)):
+        nb, na = rng.range(0, 6), rng.range(0, 4)
+        before = "".join(rng.pick(mention_lines) + "\n" for _ in range(nb))
+        if rng.chance(1, 3):
+            before += "\n[package.metadata.other]\n" + "".join(rng.pick(mention_lines) + "\n" for _ in range(rng.range(0, 3)))
+        indent = rng.pick(["", "", " ", "\t", "    "])
+        trailer = rng.pick(["", "", " ", "  # " + HDR])
+        dflt = rng.pick(["en", "fr", "de"])
+        locs = rng.sample(["en", "fr", "de"], rng.range(1, 3))
+        body = [f'default = "{dflt}"', "locales = " + toml_val(locs)]
+        nblank = rng.range(0, 3)
+        body = [""] * nblank + body
+        after = "".join("# " + rng.pick(mention_lines) + "\n" for _ in range(na))
+        bad_at = None
+        if rng.chance(1, 2):
+            bad_at = rng.below(len(body) + 1)
+            body.insert(bad_at, "namespaces = = [\"zz9\"]")
+        eol = rng.pick(["\n", "\n", "\r\n"])
+        text = ('[package]\nname = "p"\nversion = "0.1.0"\n' + before + indent + HDR + trailer + "\n" + "".join(b + "\n" for b in body) + after).replace("\n", eol)
+        reqs.append({"op": "config", "cargo_toml": text, "files": []})
+        metas.append((dflt, locs, bad_at))
+    impl = run_lines_resilient(binp, reqs)
+    model = lean_driver([{"op": "manifest.split", "text": q["cargo_toml"]} for q in reqs])
+    for q, (dflt, locs, bad_at), r, m in zip(reqs, metas, impl, model):
+        text = q["cargo_toml"]
+        ctx.seen({"toml": text}, nontrivial=True)
+        if "panic" in r or "crash" in r:
+            report_violation(ctx, "config:panics", {"case": q, "impl": r})
+            continue
+        if bad_at is None:
+            ctx.count("section-e2e:valid")
+            want = [dflt] + [l for l in locs if l != dflt]
+            got = r.get("ok", {}).get("locales") if isinstance(r.get("ok"), dict) else None
+            if got is None or got[0] != dflt or sorted(got) != sorted(want):
+                report_violation(ctx, "config:rest-of-manifest-not-ignored", {"case": q, "expected_by_spec": {"default": dflt, "locales (default first)": want},
+                                                                              "implementation": r})
+        else:
+            ctx.count("section-e2e:syntax-error")
+            if "ok" in r:
+                report_violation(ctx, "config:invalid-configuration-accepted", {"case": q, "expected_by_spec": "a TOML syntax error in the section is reported", "implementation": r})
+                continue
+            line_in_file = text[:text.index("= = ")].count("\n") + 1
+            w = m.get("whitespaced")
+            line_in_model = None if w is None else w[:w.index("= = ")].count("\n") + 1
+            mm = re.search(r"line (\d+), column", r.get("msg", ""))
+            line_in_impl = int(mm.group(1)) if mm else None
+            if line_in_model != line_in_file:
+                raise HarnessError("C19_line_numbers_kept contradicted by the driver on " + json.dumps(text))
+            if r.get("err") != "ConfigFileDeser" or line_in_impl != line_in_model:
+                note_model_mismatch(ctx, "P/manifest.whitespaced", q, {"impl": {"err": r.get("err"), "line reported": line_in_impl, "msg": r.get("msg")},
+                                                                        "model": {"err": "ConfigFileDeser", "line of the error in the text handed to the TOML parser": line_in_model}})
+
+
 def run(ctx):
     lean_check(ctx, "I18nVerif.Theorems.C19", "C19_")
+    lean_check(ctx, "I18nVerif.Theorems.C19Section", "C19_")
     rng = ctx.rng
     binp = build_parser(ctx)
     if binp is None:
@@ -176,6 +302,7 @@ def run(ctx):
         write_evidence(ctx, RULE)
         return
     default_first_stage(ctx, rng, binp)
+    section_stage(ctx, rng, binp)
     cases = gen_cases(ctx, rng)
     corpus = [([("default", "en"), ("locales", ["fr"]), ("inherits", {"fr": "en"})], "", "")]     # F12
     corpus += [([("default", "en"), ("locales", ["en", "fr"])], b, "") for b in HEADER_MENTIONS_BEFORE]      # C19-header-mention
